@@ -70,6 +70,16 @@ def _split_unit(u):
 
 
 def check_species(case, ctx):
+    """every dimensional getter of the generated object (the drawn quantity first), same unit and options"""
+    qs = ['Cv', 'Cp', 'U', 'H', 'S', 'F', 'G'] + (['E'] if case['kind'] == 'StatMech' else [])
+    if case['quantity'] in qs:
+        qs.remove(case['quantity'])
+        qs.insert(0, case['quantity'])
+    for q in qs:
+        _check_species_q(dict(case, quantity=q), ctx)
+
+
+def _check_species_q(case, ctx):
     from pmutt import constants as c
     kind, q, u = case['kind'], case['quantity'], case['unit']
     T, P = case['T'], case['P']
@@ -77,12 +87,11 @@ def check_species(case, ctx):
     mol_u, mass_u = _split_unit(u)
     R = c.R(mol_u)
     arg_u = u[:-2] if energy else u        # energies are requested without the '/K'
-    ctx.label('kind:' + kind, 'q:' + q, 'unit:%s' % ('per-mass' if mass_u else ('per-molecule' if '/mol' not in u else 'molar')))
+    ctx.label('q:' + q, 'kind:' + kind, 'unit:%s' % ('per-mass' if mass_u else ('per-molecule' if '/mol' not in u else 'molar')))
     kw = {}
     if kind == 'mode':
         obj = build_mode(case['mode_kind'], case['mode'])
         if q == 'E':
-            ctx.exclude('E is defined for StatMech species only')
             return
         kw = {'T': T, 'P': P}
     elif kind == 'StatMech':
@@ -98,7 +107,7 @@ def check_species(case, ctx):
             kw['verbose'] = case['verbose']
         else:
             if case['species']['vib'] is None and case['include_ZPE']:
-                ctx.exclude('include_ZPE without a vibrational model (documented AttributeError)')
+                ctx.label('include_ZPE-without-vibrations-skipped')     # (documented AttributeError)
                 return
             kw = {'T': T, 'include_ZPE': case['include_ZPE']}
         if q in ('S', 'G') and case['S_elements']:
@@ -113,7 +122,6 @@ def check_species(case, ctx):
             misc = [PiecewiseCovEffect(name_i='X', name_j='Y', intervals=[0.0, 0.4], slopes=[case['cov']['slope'], 1.0])]
         obj = gen.build_species(d, misc_models=misc)
         if q in ('E',):
-            ctx.exclude('E is defined for StatMech species only')
             return
         Targ = T if case['array'] is None else np.array(case['array'])
         kw = {'T': Targ, 'P': P}
